@@ -2175,6 +2175,30 @@ func checkViolationIdentity(c *Ctx, rule string) {
 				})
 			}
 		}
+		// (c) whole-value identity: v1 == v2, slices.Contains/Index over []violation, a map keyed by violation
+		whole := false
+		ast.Inspect(fi.Decl.Body, func(m ast.Node) bool {
+			switch x := m.(type) {
+			case *ast.BinaryExpr:
+				if (x.Op == token.EQL || x.Op == token.NEQ) && isV(x.X) && isV(x.Y) {
+					whole = true
+				}
+			case *ast.CallExpr:
+				if fn := calleeOf(info, x); fn != nil && fn.Pkg() != nil && fn.Pkg().Path() == "slices" && (fn.Name() == "Contains" || fn.Name() == "Index") && len(x.Args) == 2 && isV(x.Args[1]) {
+					whole = true
+				}
+			case *ast.MapType:
+				if types.Identical(info.TypeOf(x.Key), tn.Type()) {
+					whole = true
+				}
+			}
+			return true
+		})
+		if whole {
+			n++
+			c.funcs[fi.Name] = true
+			c.Check(rule, fi.Name+"|identifies violations by the whole value", fi.Decl.Pos(), true, "")
+		}
 		for what, used := range map[string]map[string]bool{"compares": cmp, "builds a key from": key} {
 			if len(used) == 0 && !(what == "builds a key from" && isKeyFn) {
 				continue
@@ -2350,18 +2374,7 @@ func checkRestoreUnconditional(c *Ctx, fi *FuncInfo, deferred *ast.DeferStmt, re
 	info := fi.Info()
 	var body *ast.BlockStmt
 	isRestore := func(inf *types.Info, obj types.Object) nodePred {
-		return func(n ast.Node) bool {
-			hit := false
-			ast.Inspect(n, func(m ast.Node) bool {
-				if call, ok := m.(*ast.CallExpr); ok {
-					if id, ok := call.Fun.(*ast.Ident); ok && inf.ObjectOf(id) == obj {
-						hit = true
-					}
-				}
-				return !hit
-			})
-			return hit
-		}
+		return func(n ast.Node) bool { return invokesFuncValue(c, inf, n, obj, 2) }
 	}
 	inf, obj := info, restoreObj
 	switch fun := deferred.Call.Fun.(type) {
@@ -2464,8 +2477,35 @@ func checkSnapshotAccepts(c *Ctx, rule string) {
 			k++
 			n++
 			c.funcs[fi.Name] = true
+			var countFact func(e ast.Expr, val bool, depth int) bool
 			clean := func(b *cfg.Block, si int) bool {
-				return edgeImplies(b, si, func(e ast.Expr, val bool) bool {
+				return edgeImplies(b, si, func(e ast.Expr, val bool) bool { return countFact(e, val, 0) })
+			}
+			countFact = func(e ast.Expr, val bool, depth int) bool {
+				{
+					// a boolean local that was last assigned a conjunction containing the count test
+					if id, isID := ast.Unparen(e).(*ast.Ident); isID && val && depth < 3 {
+						obj := info.ObjectOf(id)
+						var def ast.Expr
+						ast.Inspect(fi.Decl.Body, func(m ast.Node) bool {
+							if as, ok := m.(*ast.AssignStmt); ok && len(as.Lhs) == len(as.Rhs) && as.Pos() < e.Pos() {
+								for i, l := range as.Lhs {
+									if lid, ok := l.(*ast.Ident); ok && info.ObjectOf(lid) == obj {
+										def = as.Rhs[i]
+									}
+								}
+							}
+							return true
+						})
+						if def != nil {
+							for _, f := range impliedFacts(def, true) {
+								if countFact(f.expr, f.val, depth+1) {
+									return true
+								}
+							}
+						}
+						return false
+					}
 					be, ok := ast.Unparen(e).(*ast.BinaryExpr)
 					if !ok {
 						return false
@@ -2494,7 +2534,7 @@ func checkSnapshotAccepts(c *Ctx, rule string) {
 						return val && (v == "0" || (v == "1" && kind == "Schemas"))
 					}
 					return false
-				})
+				}
 			}
 			target := func(nd ast.Node) bool { return nd == ast.Node(ret) }
 			_, reachable := f.reachEx([]point{f.entry()}, nil, target, clean)
@@ -2819,7 +2859,7 @@ func checkChangePerStmt(c *Ctx, rule string) {
 		// the loop that executes statements
 		execs := false
 		for _, call := range callsIn(loop.Body, false) {
-			if fn := calleeOf(info, call); fn != nil && fn.Name() == "ExecContext" {
+			if fn := calleeOf(info, call); fn != nil && c.mayReach(fn, func(g *types.Func) bool { return g.Name() == "ExecContext" }, 2) {
 				execs = true
 			}
 		}
@@ -3190,4 +3230,54 @@ func checkReverseRestoresGuarded(c *Ctx, rule string) {
 	if n < 2 {
 		c.Unresolved(rule, "branches guarded by a comparison with a planner-state field that also write one (fewer than 2)")
 	}
+}
+
+// invokesFuncValue: n contains a call of the function value obj, or hands obj to a
+// module-local function that calls the parameter it receives it as on every path
+// (depth levels of such helpers).
+func invokesFuncValue(c *Ctx, info *types.Info, n ast.Node, obj types.Object, depth int) bool {
+	hit := false
+	ast.Inspect(n, func(m ast.Node) bool {
+		call, ok := m.(*ast.CallExpr)
+		if !ok || hit {
+			return !hit
+		}
+		if id, ok := call.Fun.(*ast.Ident); ok && info.ObjectOf(id) == obj {
+			hit = true
+			return false
+		}
+		if depth <= 0 {
+			return true
+		}
+		for ai, a := range call.Args {
+			id, ok := ast.Unparen(a).(*ast.Ident)
+			if !ok || info.ObjectOf(id) != obj {
+				continue
+			}
+			hf := calleeOf(info, call)
+			if hf == nil || hf.Pkg() == nil || !strings.HasPrefix(hf.Pkg().Path(), modRoot) {
+				continue
+			}
+			cf := c.FuncInfoOf(hf)
+			if cf == nil || cf.Decl.Body == nil {
+				continue
+			}
+			var ps []*ast.Ident
+			for _, fld := range cf.Decl.Type.Params.List {
+				ps = append(ps, fld.Names...)
+			}
+			if ai >= len(ps) {
+				continue
+			}
+			pobj := cf.Info().ObjectOf(ps[ai])
+			// the helper calls the parameter on every path from its entry to an exit
+			f := newFlow(cf.Info(), cf.Decl.Body)
+			calls := func(nd ast.Node) bool { return invokesFuncValue(c, cf.Info(), nd, pobj, depth-1) }
+			if _, skipped := f.reach([]point{f.entry()}, calls, isReturn, true); !skipped {
+				hit = true
+			}
+		}
+		return !hit
+	})
+	return hit
 }
